@@ -28,6 +28,8 @@ type Contract struct {
 	Line     int
 	Lets     []*LetClause
 	NoInline bool
+	Appends  []*Clause // slices whose spare capacity this function is declared to own
+	HeapFacts bool // opt-in: quantified well-typed-heap axioms and operand-side append facts
 	Entry    []*EntryGhost
 	Exit     []*EntryGhost
 	Assumed  string
@@ -103,7 +105,7 @@ var clauseKeywords = map[string]bool{
 	"func": true, "extern": true, "props": true, "requires": true, "ensures": true,
 	"loop": true, "modifies": true, "ghost": true, "safety": true, "pure": true,
 	"pred": true, "ghostvar": true, "at": true, "trusted": true, "may_panic": true,
-	"let": true, "specfun": true, "axiom": true, "noinline": true, "end": true,
+	"let": true, "specfun": true, "axiom": true, "noinline": true, "heapfacts": true, "appends": true, "end": true,
 	"entry": true, "modset": true, "exit": true, "global": true, "assumed": true, "alloc_limit": true,
 }
 
@@ -298,6 +300,8 @@ func parseContracts(path string) (*Contracts, error) {
 				cur.Pure = true
 			case "noinline":
 				cur.NoInline = true
+			case "heapfacts":
+				cur.HeapFacts = true
 			case "may_panic":
 				cur.MayPanic = true
 			case "trusted":
@@ -377,6 +381,12 @@ func parseContracts(path string) (*Contracts, error) {
 					return nil, err
 				}
 				cur.Requires = append(cur.Requires, cl)
+			case "appends":
+				cl, err := mkClause(r.text, r.line)
+				if err != nil {
+					return nil, err
+				}
+				cur.Appends = append(cur.Appends, cl)
 			case "ensures":
 				cl, err := mkClause(r.text, r.line)
 				if err != nil {
